@@ -895,7 +895,8 @@ def call (fuel : Nat) (fn : FuncDecl) (args : List Value) : EM Value :=
       match fn.body with
       | .block stmts _ => execSeq fuel stmts
       | other => exec fuel other
-      getReturnValue)
+      let ret ← getReturnValue
+      pure (widenFor fn.ret ret))
 
 /-- run statements until a `return` is hit -/
 def execSeq (fuel : Nat) (stmts : List Stmt) : EM Unit :=
